@@ -437,6 +437,63 @@ def w_prior(case):
     return {'transitions': 3, 'outcome': tol.rnd(y, 8), 'violations': viol}
 
 
+def w_prior_pop(case):
+    """PriorPredictiveModel around a PopulationPredictiveModel: every sample is the
+    first individual of a population drawn at ONE prior draw of the population
+    parameters, with noise variates of its own (not the ones that made the
+    individual)."""
+    spec = case['spec']
+    ns = case['n_samples']
+    times = case['times']
+    ts = np.sort(times)
+    seed = case['seed']
+    viol = []
+    nt = rp.n_top(spec, 1)
+    pri = pints.ComposedLogPrior(*[
+        pints.UniformLogPrior(0.4 + 0.1 * i, 0.9 + 0.1 * i) for i in range(nt)])
+    ppm = chi.PriorPredictiveModel(
+        chi.PopulationPredictiveModel(pred_model(1), popbuild.build(spec, None)),
+        pri)
+    with Seam(Script(base=generic)):
+        df = ppm.sample(list(times), n_samples=ns, seed=seed)
+    y = _values(df, ns, ts)
+    with Seam(Script(base=generic)):
+        np.random.seed(seed)
+        tops = [pri.sample().flatten() for _ in range(ns)]
+    parts = rp.elementary_parts(spec) if spec['kind'] == 'Comp' else [spec]
+    for s_ in range(ns):
+        stream = 'seed:%d' % (seed + s_ + 1)
+        with Seam(Script(base=generic)) as seam2:
+            rng = np.random.default_rng(seed + s_ + 1)
+            cols = []
+            t0 = 0
+            for part in parts:
+                sub = popbuild.build(part, None)
+                n_ = rp.n_top(part, 1)
+                pat = sub.sample(tops[s_][t0:t0 + n_], n_samples=ns, seed=rng)
+                cols.append(np.asarray(sub.compute_individual_parameters(
+                    tops[s_][t0:t0 + n_], pat), dtype=float).reshape(ns, -1))
+                t0 += n_
+            psi = np.hstack(cols)
+            used = sum(1 for l_ in seam2.log if l_[0] == stream)
+            rest = [seam2.script(stream, i, 'z')
+                    for i in range(used, used + len(ts) * ns)]
+        z = (y[s_] - psi[0, 0] * tf(ts)) / psi[0, 1]
+        ok = all(any(abs(zz - a) < 1e-8 for a in rest) for zz in z) and \
+            len(set(np.round(z, 8))) == len(z)
+        if not ok:
+            viol.append({
+                'sub': 'prior_pop', 'message': 'a prior predictive sample of a '
+                'population predictive model is not an individual drawn from the '
+                'population at one prior draw plus noise variates of its own (%s)'
+                % popbuild.label(spec),
+                'expected': {'top': tops[s_], 'psi': psi[0],
+                             'noise_from': [stream, used]},
+                'observed': {'implied_noise': z}, 'behaviour': 'prior_pop'})
+            break
+    return {'transitions': 3, 'outcome': tol.rnd(y, 8), 'violations': viol}
+
+
 def w_pam(case):
     ns = case['n_samples']
     times = case['times']
@@ -520,7 +577,8 @@ def w_regimen(case):
 
 
 WORKERS = {'predictive': w_pred, 'population': w_poppred, 'posterior': w_posterior,
-           'prior': w_prior, 'pam': w_pam, 'regimen': w_regimen}
+           'prior': w_prior, 'pam': w_pam, 'regimen': w_regimen,
+           'prior_population': w_prior_pop}
 
 
 def build(tier, seed):
@@ -573,6 +631,13 @@ def build(tier, seed):
                                          'pooled_sigma': pooled})
     prior = [{'n_samples': ns, 'times': p, 'seed': sd}
              for ns in (1, 2, 3) for p in perms[:3] for sd in (3, 8)]
+    prior_pop = []
+    for spec in (rp.Comp([rp.LN(1), rp.LN(1)]), rp.Comp([rp.G(1), rp.P(1)]),
+                 rp.Comp([rp.P(1), rp.LN(1, False)])):
+        for ns in (1, 2, 3):
+            for sd in (3, 8):
+                prior_pop.append({'spec': spec, 'n_samples': ns, 'times': perms[1],
+                                  'seed': sd})
     pam = []
     for weights in ([1.0, 1.0], [0.2, 0.6], [3.0, 1.0, 1.0]):
         for ns in (1, 2, 3):
@@ -596,6 +661,8 @@ def build(tier, seed):
                  'population structures x n_samples x previous n_ids x covariates'),
             Part('posterior', post, w_posterior, 'PosteriorPredictiveModel: every '
                  'tuple of (chain, draw) answers on a coded posterior'),
+            Part('prior_population', prior_pop, w_prior_pop,
+                 'PriorPredictiveModel around a PopulationPredictiveModel'),
             Part('prior', prior, w_prior, 'PriorPredictiveModel vs pints draws '
                  'under the same script'),
             Part('pam', pam, w_pam, 'PAMPredictiveModel: all model assignments, '
